@@ -199,7 +199,7 @@ def judge(case: dict) -> dict:
 def run(ctx: Ctx) -> None:
     ctx.rule = (
         "packages with the same short class name 'Common' in 2-3 sibling sub-packages, a private module whose class and "
-        "function are re-exported by the root package (or, extended, by all siblings of equal depth), foreign classes, two "
+        "function are re-exported by the root package (-s points at the package, at its parent directory, or at a directory with decoy package roots at other depths) (or, extended, by all siblings of equal depth), foreign classes, two "
         "type variables, inferred union results and literal unions; each is run 1 + 11 times: 2 other hash seeds, repetition, "
         "4 cwd/path-spelling combinations (console script), 2 directory-enumeration permutations and the natural order "
         "(in-process). evaluations = pipeline runs; non-trivial = every package (each contains name collisions, several "
